@@ -73,6 +73,9 @@ RULES = {
 # table is the order of the findings within one symptom rank.
 CAUSE_DOC = collections.OrderedDict([
     # ---- C06
+    ("unicode-line-separator-in-literal",
+     "a literal holding U+2028 / U+2029 / U+0085 / FF / VT / FS / GS / RS unescaped (legal in N-Triples, whose only line ends "
+     "are LF and CR): the statement must stay one line"),
     ("no-space-after-object",
      "object token that ends at the next blank (blank node, typed / language-tagged literal, literal with '^^' in it) directly "
      "followed by the final dot or a tab"),
@@ -111,6 +114,9 @@ CAUSE_DOC = collections.OrderedDict([
     ("language-tag", "language-tagged literal"),
     ("custom-prefix-datatype",
      "datatype written with a declared prefix other than xsd/rdf/dt/geo: decide_literal_type ignores the prefix table"),
+    ("prefix-redeclared",
+     "a prefix label declared again with another namespace: from there on the later declaration holds (names used before and after)"),
+    ("base-redeclared", "@base declared again: relative IRIs after it resolve against the later base"),
     ("comment-literal-bounds-not-found",
      "comment stripping locates the first literal of a line with the regex [^\\\\]\" : it misses an opening quote in column 0, an "
      "empty literal and a closing quote after an escaped backslash -> IndexError, or text inside the literal cut as comment"),
@@ -156,7 +162,8 @@ def _key_rank(pid, key):
 # case generation (parent process)
 # ================================================================================================
 def gen_cases(pid, tier, seed):
-    """-> list of work units: ("line", case) | ("ntdoc", items) | ("ttl", case) | ("outside", construct, text)."""
+    """-> list of work units: ("line", case) | ("ntdoc", items) | ("ntdoc-oracle", items) | ("ttl", case) |
+    ("ttlx", case: @prefix / @base declared again) | ("outside", construct, text)."""
     rng = random.Random("%s-%s" % (pid, seed))
     size = SIZES[tier][pid]
     units = []
@@ -174,6 +181,10 @@ def gen_cases(pid, tier, seed):
             add(case)
         for case in R.nt_node_cases():
             add(case)
+        for case in R.nt_line_separator_cases():
+            add(case)
+        for items in R.nt_line_separator_documents():
+            units.append(("ntdoc-oracle", items))
         lo = max(L_all + L_default) + 1
         for _ in range(n_random):
             add(R.nt_random_case(rng, lo, lo + 5))
@@ -204,6 +215,8 @@ def gen_cases(pid, tier, seed):
         for i in range(n_random):
             units.append(("ttl", R.ttl_random_case(rng, safe_layout=False)))
             units.append(("ttl", R.ttl_random_case(rng, safe_layout=True)))
+        for case in R.ttl_redeclaration_cases():
+            units.append(("ttlx", case))
         for (construct, text) in R.OUTSIDE_DIALECT:
             units.append(("outside", construct, text))
     return units
@@ -308,6 +321,47 @@ def eval_unit(unit, confirm=False):
             rec = {"pid": "C06", "kind": "ntdoc", "case": [list(i) for i in unit[1]], "text": doc, "symptom": text}
             res["deviations"].append((make_key("C06", category, symptom), rec))
         return res
+    if kind == "ntdoc-oracle":
+        items = [(k, _nt_case(x)) for (k, x) in unit[1]]
+        doc = "\n".join(R.nt_line(x) for k, x in items) + "\n"
+        ref = R.rdflib_nt(doc)
+        want = []
+        for k, x in items:
+            e = R.nt_expected(x)
+            want.append(e[:4] + [R.unescape(e[4]), e[5]] if e[3] == "Literal" else e)
+        if ref[0] != "ok":
+            res["dropped"] = "rejected: " + ref[1]
+            return res
+        if ref[1] != want:
+            res["dropped"] = "disagrees: rdflib reads %r, generator %r" % (ref[1], want)
+            return res
+        devs, doc = R.nt_doc_oracle_check(items)
+        res["evaluated"] = 1
+        res["nontrivial"] = 1
+        for (category, symptom, text) in devs:
+            rec = {"pid": "C06", "kind": "ntdoc-oracle", "case": [list(i) for i in unit[1]], "text": doc, "symptom": text,
+                   "expected": {"triples": [R.nt_expected(x) for k, x in items], "error_triples": 0}}
+            res["deviations"].append((make_key("C06", category, symptom), rec))
+        return res
+    if kind == "ttlx":
+        case = unit[1]
+        text = R.redecl_text(case)
+        exp = R.redecl_expected(case)
+        ref = R.rdflib_ttl(text)
+        if ref[0] != "ok":
+            res["dropped"] = "rejected: " + ref[1]
+            return res
+        if not R.same_graph(ref[1], exp):
+            res["dropped"] = "disagrees: rdflib reads %r, generator %r" % (ref[1], exp)
+            return res
+        outcome = R.read_ttl(text)
+        res["evaluated"] = 1
+        res["nontrivial"] = 1
+        for (category, symptom, descr) in R.redecl_classify(case, outcome, exp):
+            rec = {"pid": "C07", "kind": "ttlx", "case": case, "text": text, "expected": exp,
+                   "observed": _jsonable_outcome(outcome), "symptom": descr}
+            res["deviations"].append((make_key("C07", category, symptom), rec))
+        return res
     if kind == "ttl":
         case = unit[1]
         text = R.ttl_text(case)
@@ -362,6 +416,8 @@ def _rank(rec):
         complexity = R.nt_complexity(_nt_case(rec["case"]))
     elif rec["kind"] == "ttl":
         complexity = R.ttl_complexity(rec["case"])
+    elif rec["kind"] == "ttlx":
+        complexity = (R.REDECL_LAYOUTS.index(rec["case"]["layout"]), len(rec["case"]["parts"]))
     return (complexity, len(rec["text"]), rec["text"])
 
 
@@ -422,8 +478,8 @@ def _unit_of(rec):
         return ("line", rec["case"])
     if rec["kind"] == "ntdoc":
         return ("ntdoc", rec["case"])
-    if rec["kind"] == "ttl":
-        return ("ttl", rec["case"])
+    if rec["kind"] in ("ttl", "ttlx", "ntdoc-oracle"):
+        return (rec["kind"], rec["case"])
     return ("outside", rec["construct"], rec["text"])
 
 
@@ -501,7 +557,9 @@ def run(pid, tier="quick", seed=0):
                   "^^<xsd:anyURI>, ^^<%s>) x %d layouts (separator in %r, before the dot %r, trailing comment %r); L in %r under "
                   "the default layout; %d IRIs / %d blank-node labels in every position + separator product on a small node set "
                   "(+ comments %r); %d random lines of %d..%d symbols over the alphabet + %r; %d documents of 2-5 lines with blank "
-                  "and comment lines; seed %s; guards: alarm %d s + CPU timer %.2f s per call"
+                  "and comment lines; each of the 8 characters str.splitlines() breaks at (U+2028 U+2029 U+0085 FF VT FS GS RS) at the "
+                  "start / middle / end of plain, tagged and typed literals under every layout, next to every alphabet symbol, and in "
+                  "2-3 statement documents; seed %s; guards: alarm %d s + CPU timer %.2f s per call"
                   % (len(R.SYMBOLS), R.SYMBOLS, SIZES[tier][pid][0], R.DT_FOO, len(R.nt_layouts(True)), R.SEPS, R.PRE_DOT, R.COMMENTS,
                      SIZES[tier][pid][1], len(R.IRIS), len(R.BNODES), R.ODD_COMMENTS, SIZES[tier][pid][2],
                      max(SIZES[tier][pid][0] + SIZES[tier][pid][1]) + 1, max(SIZES[tier][pid][0] + SIZES[tier][pid][1]) + 6,
@@ -512,7 +570,8 @@ def run(pid, tier="quick", seed=0):
                   "<relative> under @base, blank nodes, 'a', literals with escapes and '#' ';' ',' '.', language tags, datatypes as "
                   "<IRI> / xsd: / custom prefix, integers) in canonical layout, literals x trailing comments; 2 x %d random documents "
                   "(1-3 subjects, ';' and ',' groups, rich separators %r, and a house-style layout with breaks after punctuation "
-                  "only); %d documents outside the dialect; seed %s; guard: alarm %d s per document"
+                  "only); 14 documents x 3 layouts that declare a prefix label or @base again and reuse the same names; %d documents "
+                  "outside the dialect; seed %s; guard: alarm %d s per document"
                   % (SIZES[tier][pid][0], len(R.SHAPES), R.SHAPES, len(R.PALETTES), len(R.SUBJ), len(R.PRED),
                      len(R.OBJ), SIZES[tier][pid][1], sorted(set(R.RICH_SEPS)), len(R.OUTSIDE_DIALECT), seed, R.WALL_SECONDS))
     return {"name": "readers-monitor", "label": "bounded", "property": pid, "tier": tier, "seed": seed,
@@ -584,6 +643,25 @@ def _mutants():
             return target_str[first_index:].find(" ") + first_index - 1
         return patch(nt.NtTriplesYielder, "_look_for_last_index_of_unspaced_token", bad)
 
+    def lines_by_splitlines():
+        rs = sys.modules["shexer.io.line_reader.raw_string_line_reader"].RawStringLineReader
+
+        def bad(self):
+            for a_line in self._raw_string.splitlines():
+                if a_line.strip() != "":
+                    yield a_line
+        return patch(rs, "read_lines", bad)
+
+    def prefix_expansion_memo():
+        old = ttl.BigTtlTriplesYielder._parse_elem
+
+        def bad(self, raw_elem):
+            memo = self.__dict__.setdefault("_selftest_memo", {})     # survives _process_prefix_line / _process_base_line
+            if raw_elem not in memo:
+                memo[raw_elem] = old(self, raw_elem)
+            return memo[raw_elem]
+        return patch(ttl.BigTtlTriplesYielder, "_parse_elem", bad)
+
     def state_machine_keeps_waiting_for_object():
         old = ttl.BigTtlTriplesYielder._assing_tmp_element_and_promote_state
 
@@ -615,6 +693,8 @@ def _mutants():
         ("C06", "NtTriplesYielder._look_for_last_index_of_uri_token off by one", uri_token_off_by_one),
         ("C06", "tune_token labels every literal xsd:string", every_literal_a_string),
         ("C06", "token end = find(' ') - 1 (non-termination must come back under keys ending in :hang)", token_end_search_runs_backwards, ":hang"),
+        ("C06", "RawStringLineReader.read_lines uses str.splitlines()", lines_by_splitlines, "", "C06:unicode-line-separator-in-literal:"),
+        ("C07", "_parse_elem memoised by raw token across @prefix / @base lines", prefix_expansion_memo, "", "C07:prefix-redeclared:"),
         ("C07", "_assing_tmp_element_and_promote_state: predicate after ';' taken for the object", state_machine_keeps_waiting_for_object),
         ("C07", "',' handled like ';' in the statement state machine", comma_resets_to_predicate),
     ]
@@ -627,6 +707,7 @@ def _selftest(verbose=True):
     for mutant in _mutants():
         pid, desc, patch = mutant[:3]
         must_end = mutant[3] if len(mutant) > 3 else ""
+        must_start = mutant[4] if len(mutant) > 4 else ""
         t0 = time.time()
         if pid not in baseline:                        # finding keys of the unpatched tree at the same size
             res0 = run(pid, "selftest", 0)
@@ -637,7 +718,7 @@ def _selftest(verbose=True):
         finally:
             undo()
         keys = [f["key"] for f in res["findings"]]
-        new = [k for k in keys if k not in baseline[pid] and k.endswith(must_end)]
+        new = [k for k in keys if k not in baseline[pid] and k.endswith(must_end) and k.startswith(must_start)]
         hit = bool(new)
         if must_end == ":hang":                       # and no hang may hide under a key of another symptom class
             hit = hit and not any(f["input"].get("observed", {}).get("status") == "hang" and not f["key"].endswith(":hang")
@@ -645,7 +726,7 @@ def _selftest(verbose=True):
         ok = ok and hit
         if verbose:
             print("%-4s %-4s mutant: %-84s -> %d new finding key(s) %s  [%d cases, %.1fs]"
-                  % ("ok" if hit else "FAIL", pid, desc, len(new), new[:3], res["evaluations"], time.time() - t0))
+                  % ("ok" if hit else "FAIL", pid, desc, len(new), new[:4], res["evaluations"], time.time() - t0))
     if verbose:
         print("selftest %s in %.1fs" % ("passed: every mutant is detected" if ok else "FAILED", time.time() - t00))
     return ok
